@@ -108,3 +108,37 @@ def replay_seed(install, run, seed, only_function=None):
         return {"violated": True, "exception": traceback.format_exc()[-700:]}
     finally:
         monitors.uninstall()
+
+
+def deep_book_history(seed, after_event=None):
+    """deep one-sided books with distinct and tied prices, cancels of non-best orders, expiries, then sweeping orders (limit and market): exercises heap maintenance"""
+    rng = random.Random(seed)
+    m = mk_market(tick=1.0, price=100.0)
+    m._is_running = seed % 3 != 0
+    live = []
+    side = rng.random() < 0.5
+    for phase in range(rng.randint(1, 3)):
+        for _ in range(rng.randint(5, 12)):
+            p = float(rng.randint(90, 99) if side else rng.randint(101, 110))
+            o = Order(agent_id=rng.randint(0, 2), market_id=0, is_buy=side, kind=LIMIT_ORDER, volume=rng.randint(1, 2), price=p, ttl=rng.choice([None, None, 2, 4]))
+            m._add_order(o); live.append(o)
+            if m.is_running:
+                m._execution()
+        for _ in range(rng.randint(0, 3)):
+            c = [o for o in live if not o.is_canceled and o.volume > 0 and o.placed_at is not None]
+            if c:
+                m._cancel_order(Cancel(order=rng.choice(c)))
+                if m.is_running:
+                    m._execution()
+        if rng.random() < 0.5:
+            m._update_time(next_fundamental_price=100.0)
+        # sweep
+        mkt = rng.random() < 0.3
+        vol = rng.randint(2, 8)
+        sweep = Order(agent_id=3, market_id=0, is_buy=not side, kind=MARKET_ORDER if mkt else LIMIT_ORDER, volume=vol, price=None if mkt else (float(rng.randint(88, 96)) if side else float(rng.randint(104, 112))))
+        m._add_order(sweep); live.append(sweep)
+        m._is_running = True
+        m._execution()
+        if rng.random() < 0.5:
+            side = not side
+    return m
